@@ -372,7 +372,7 @@ func c18Magic(b *c18Base) []uint64 {
 	return m
 }
 
-func c18Enumerate(b *c18Base) []c18Mut {
+func c18Enumerate(b *c18Base, deep bool) []c18Mut {
 	var out []c18Mut
 	out = append(out, b.graph...)
 	magic := c18Magic(b)
@@ -388,7 +388,13 @@ func c18Enumerate(b *c18Base) []c18Mut {
 					max = (uint64(1) << (8 * uint(w))) - 1
 				}
 				seen := map[uint64]bool{old: true}
-				for _, v := range []uint64{0, 1, max, max - 1, uint64(1) << (8*uint(w) - 1), (old + 1) & max, (old - 1) & max} {
+				vals := []uint64{0, 1, max, max - 1, uint64(1) << (8*uint(w) - 1), (old + 1) & max, (old - 1) & max}
+				if deep && w == 1 {
+					for k := uint(0); k < 8; k++ {
+						vals = append(vals, old^(1<<k)) // every single-bit flip
+					}
+				}
+				for _, v := range vals {
 					if seen[v] {
 						continue
 					}
@@ -416,7 +422,8 @@ type c18Params struct {
 	Base string  `json:"base"`
 	From int     `json:"from,omitempty"`
 	To   int     `json:"to,omitempty"`
-	Pick int     `json:"pick,omitempty"` // quick tier: take every Pick-th mutation (deterministic subset)
+	Pick int     `json:"pick,omitempty"` // take every Pick-th mutation (1 = all)
+	Deep bool    `json:"deep,omitempty"` // thorough tier: the enumeration also holds every single-bit flip of every byte
 	Only *c18Mut `json:"only,omitempty"`
 }
 
@@ -589,8 +596,8 @@ func init() {
 	core.Register(&core.Check{
 		ID:          "C18",
 		Level:       "fault_enumeration",
-		Rule:        "valid base images (FAT12/16/32, ext4 in two library configurations and one made by mke2fs with a multi-extent sparse file, ISO9660 plain/Rock Ridge/Joliet, squashfs uncompressed and gzip) are built once; their structural regions are located by independent parsers (boot sector/BPB, FSInfo, in-use FAT entries, root and sub directory entries; superblock, group descriptors, bitmaps, in-use inodes with their extent headers, extent leaf blocks, directory blocks; volume descriptors, directory records, path table; squashfs superblock and the heads of every table); within each region every byte offset x width {1,2,4,8} x values {0,1,max,max-1,sign bit,old+1,old-1} and, for widths >= 2, the image's own structural magnitudes read raw from its header (cluster count and FAT capacity; block, inode and per-group counts; volume and table sizes; squashfs counts and table offsets), each -1/+0/+1, is applied on a copy-on-write overlay, plus targeted graph faults (FAT self-loop, 2-cycle, cross-link, out-of-range/free/bad links); each corrupted image is opened and walked (ReadDir on every directory, bounded read loop + ReadFile + Stat on every file) in a worker child with a read budget of 64x the image and a per-case CPU budget; monitors: panics, fatal deaths (journal attribution), CPU budget, non-progressing reads, growth of the live heap (sampled every 0.5 ms) beyond 8x image + 32 MiB, confirmed by a second measurement of the same mutation after a collection, read volume. The enumeration is deterministic (the quick tier takes every k-th mutation); non-trivial = the image was still opened and walked; distinct = distinct mutation",
-		Assumptions: []string{"quick tier: a fixed every-k-th subset of the enumeration plus all graph faults; thorough: the full enumeration", "panics are keyed by filesystem type + innermost library function + normalised message, so each distinct crash site is one finding"},
+		Rule:        "valid base images (FAT12/16/32, ext4 in two library configurations and one made by mke2fs with a multi-extent sparse file, ISO9660 plain/Rock Ridge/Joliet, squashfs uncompressed and gzip) are built once; their structural regions are located by independent parsers (boot sector/BPB, FSInfo, in-use FAT entries, root and sub directory entries; superblock, group descriptors, bitmaps, in-use inodes with their extent headers, extent leaf blocks, directory blocks; volume descriptors, directory records, path table; squashfs superblock and the heads of every table); within each region every byte offset x width {1,2,4,8} x values {0,1,max,max-1,sign bit,old+1,old-1} and, for widths >= 2, the image's own structural magnitudes read raw from its header (cluster count and FAT capacity; block, inode and per-group counts; volume and table sizes; squashfs counts and table offsets), each -1/+0/+1, is applied on a copy-on-write overlay, plus targeted graph faults (FAT self-loop, 2-cycle, cross-link, out-of-range/free/bad links); each corrupted image is opened and walked (ReadDir on every directory, bounded read loop + ReadFile + Stat on every file) in a worker child with a read budget of 64x the image and a per-case CPU budget; monitors: panics, fatal deaths (journal attribution), CPU budget, non-progressing reads, growth of the live heap (sampled every 0.5 ms) beyond 8x image + 32 MiB, confirmed by a second measurement of the same mutation after a collection, read volume. The enumeration is deterministic and complete in both tiers (thorough adds all single-bit flips); non-trivial = the image was still opened and walked; distinct = distinct mutation",
+		Assumptions: []string{"both tiers run the full enumeration; the thorough tier adds every single-bit flip of every byte of the regions", "panics are keyed by filesystem type + innermost library function + normalised message, so each distinct crash site is one finding"},
 		MinSigs:     map[string]int{"quick": 2000, "thorough": 50000},
 		CPUSec:      30,
 		DeathKey: func(c core.Case, class, stderr, note string) string {
@@ -629,18 +636,16 @@ func init() {
 				if b == nil {
 					continue
 				}
-				n := len(c18Enumerate(b))
+				deep := tier == "thorough"
+				n := len(c18Enumerate(b, deep))
 				pick := 1
-				if tier != "thorough" {
-					pick = n/1200 + 1
-				}
 				step := 200 * pick
 				for from := 0; from < n; from += step {
 					to := from + step
 					if to >= n {
 						to = 1 << 30 // the worker's own enumeration decides where the list ends
 					}
-					cs = append(cs, core.MkCase(fmt.Sprintf("%s-%d", bn, from), "damage-"+bn, 0, c18Params{Base: bn, From: from, To: to, Pick: pick}))
+					cs = append(cs, core.MkCase(fmt.Sprintf("%s-%d", bn, from), "damage-"+bn, 0, c18Params{Base: bn, From: from, To: to, Pick: pick, Deep: deep}))
 				}
 			}
 			return cs
@@ -663,7 +668,7 @@ func init() {
 				c18Eval(&res, b, *p.Only, env)
 				return res
 			}
-			ms := c18Enumerate(b)
+			ms := c18Enumerate(b, p.Deep)
 			if p.To > len(ms) {
 				p.To = len(ms)
 			}
